@@ -19,6 +19,16 @@ import (
 
 const verifRoot = "/verif"
 
+// outRoot is where run directories, replays and evidence go. It is /verif except when
+// tools/check-against evaluates a scratch copy of the repository (VERIF_OUT), so that such
+// runs never touch the evidence of the registered checks.
+var outRoot = func() string {
+	if d := os.Getenv("VERIF_OUT"); d != "" {
+		return d
+	}
+	return verifRoot
+}()
+
 // Optional monitor extensions.
 type workerEnver interface {
 	WorkerEnv(outdir string, batch int) []string
@@ -192,7 +202,7 @@ func parent(id, tier string) int {
 		usage()
 	}
 	seed := envSeed()
-	outdir := filepath.Join(verifRoot, ".build", "run", id+"-"+tier)
+	outdir := filepath.Join(outRoot, ".build", "run", id+"-"+tier)
 	os.RemoveAll(outdir)
 	if err := os.MkdirAll(outdir, 0o755); err != nil {
 		fmt.Fprintln(os.Stderr, err)
@@ -399,7 +409,7 @@ func parent(id, tier string) int {
 		})
 		v := vs[0]
 		nviol++
-		dir := filepath.Join(verifRoot, "replays", id)
+		dir := filepath.Join(outRoot, "replays", id)
 		os.MkdirAll(dir, 0o755)
 		safe := strings.NewReplacer("/", "_", " ", "_", "@", "_at_", "*", "", "(", "", ")", "", "\"", "", "'", "").Replace(sig)
 		path := filepath.Join(dir, clip(safe, 100)+"-"+hashHex(fmt.Sprint(sig, seed, v.Batch, v.Index, tier))+".json")
@@ -467,8 +477,8 @@ func parent(id, tier string) int {
 		"violations":  nviol,
 	}
 	eb, _ := json.MarshalIndent(ev, "", " ")
-	os.MkdirAll(filepath.Join(verifRoot, "evidence"), 0o755)
-	if err := os.WriteFile(filepath.Join(verifRoot, "evidence", id+".json"), eb, 0o644); err != nil {
+	os.MkdirAll(filepath.Join(outRoot, "evidence"), 0o755)
+	if err := os.WriteFile(filepath.Join(outRoot, "evidence", id+".json"), eb, 0o644); err != nil {
 		fmt.Fprintln(os.Stderr, err)
 	}
 
